@@ -167,6 +167,11 @@ Theorem C37_batch_sizes_source : forall len nc,
 Proof. intros len nc. split; [apply raw_batch_size_model|apply aggr_batch_size_model]. Qed.
 Print Assumptions C37_batch_sizes_source.
 
+(* Tie T for the comparison of downsampleRawLoop's batch-extension loop (see C36). *)
+Theorem C37_extension_loop_source : forall t w, ext_take t w = (t <=? w).
+Proof. exact ext_take_model. Qed.
+Print Assumptions C37_extension_loop_source.
+
 (* Non-vacuity: a counter with a reset inside the first chunk and one exactly between
    the two chunks (batch size 3), 10 ms resolution; second level at 30 ms in two parts
    and in one part. *)
